@@ -29,6 +29,26 @@ def _load(name):
     return json.load(open(p)) if os.path.exists(p) else {}
 
 
+def resolver_pairing(P_):
+    R = 'PskResolver::resolve'
+    fn = P_.fn(R)
+    body = P_.body(fn)
+    o = Origins(body)
+    r = Res()
+    for bi, b in enumerate(body.B):
+        for st in b['st']:
+            rv = st['rv']
+            if rv['k'] == 'agg' and rv['what'].endswith('PskSecretInput::PskSecretInput'):
+                got = {n: o.op_str(op) for n, op in zip(rv['names'], rv['ops'])}
+                r.site('%s @%s id=%s' % (R, st['ln'], got.get('id', '')[:60]))
+                if not re.search(r'^Iterator::next\(id\)$', got.get('id', '')):
+                    r.bad('id', 'resolved PSK input carries id `%s`, expected the id being resolved' % got.get('id'), where=[st['ln']])
+                if not re.search(r'resolve_external\(self, Iterator::next\(id\)\.key_id<External>', got.get('psk', '')) or \
+                        not re.search(r'resolve_resumption\(self, Iterator::next\(id\)\.key_id<Resumption>', got.get('psk', '')):
+                    r.bad('psk', 'resolved PSK value `%s` is not looked up by the id being resolved' % got.get('psk'), where=[st['ln']])
+    return r
+
+
 def run(ctx):
     P = ctx.P
     ctx.check('EXHAUSTIVE-LOOP', 'every PSK of the list is folded into the PSK secret', lambda P_: exhaustive_loop(P_, 'PskSecret::calculate'), floor=1)
@@ -61,24 +81,7 @@ def run(ctx):
               lambda P_: wire(P_, 'Group::get_psk', r'PskResolver::resolve_to_secret$', 1, r'Iterator::collect\(Iterator::map\(.*psks'), floor=1)
     R = 'PskResolver::resolve'
 
-    def pairing(P_):
-        fn = P_.fn(R)
-        body = P_.body(fn)
-        o = Origins(body)
-        r = Res()
-        for bi, b in enumerate(body.B):
-            for st in b['st']:
-                rv = st['rv']
-                if rv['k'] == 'agg' and rv['what'].endswith('PskSecretInput::PskSecretInput'):
-                    got = {n: o.op_str(op) for n, op in zip(rv['names'], rv['ops'])}
-                    r.site('%s @%s id=%s' % (R, st['ln'], got.get('id', '')[:60]))
-                    if not re.search(r'^Iterator::next\(id\)$', got.get('id', '')):
-                        r.bad('id', 'resolved PSK input carries id `%s`, expected the id being resolved' % got.get('id'), where=[st['ln']])
-                    if not re.search(r'resolve_external\(self, Iterator::next\(id\)\.key_id<External>', got.get('psk', '')) or \
-                            not re.search(r'resolve_resumption\(self, Iterator::next\(id\)\.key_id<Resumption>', got.get('psk', '')):
-                        r.bad('psk', 'resolved PSK value `%s` is not looked up by the id being resolved' % got.get('psk'), where=[st['ln']])
-        return r
-    ctx.check('WIRE', 'resolver pairs every id with the value looked up for it', pairing, floor=1)
+    ctx.check('WIRE', 'resolver pairs every id with the value looked up for it', resolver_pairing, floor=1)
     ctx.check('MUST-PASS', 'resolve_to_secret: resolution then calculation', lambda P_: must_pass(P_, 'PskResolver::resolve_to_secret', r'PskResolver::resolve$'), floor=1)
     ctx.check('MUST-PASS', 'resolve_to_secret: calculate', lambda P_: must_pass(P_, 'PskResolver::resolve_to_secret', r'PskSecret::calculate$'), floor=1)
     C = 'PskSecret::calculate'
